@@ -6,6 +6,7 @@
    Gaussian rationals (Model/Sbrg.v) and its diagonal-form, causality and commuting-exactness claims are theorems (end of this file); floating-point rounding of the
    coefficients is outside the model and bridged by the correspondence check (strings, order, circuit exactly; coefficients to 1e-9). *)
 From Coq Require Import QArith Qcanon.
+From PC Require Import Model.CMap Model.Tableau Proofs.DiagStateFacts.
 From PC Require Import Model.Base Model.Pauli Model.Diag Model.Spec Proofs.DiagFacts Proofs.Rotate Proofs.IndexFacts Model.Circuit Proofs.CircuitFacts Proofs.DiagCircuitFacts Model.Ket Model.Poly Model.PolySem Model.Sbrg Proofs.SbrgFacts.
 
 Theorem C18_diag1_maps_to_Z : forall g i0, (i0 < length g)%nat -> is_id_str g = false ->
@@ -81,3 +82,24 @@ Theorem C18_sbrg_before_repair_refuted :
    ~ Forall (fun t => diagonal (fst (snd t))) (fst (sbrg_old 1 0%Qc 0%Qc cex_nilpotent))).
 Proof. exact sbrg_old_heff_not_always_diagonal. Qed.
 Print Assumptions C18_sbrg_before_repair_refuted.
+
+(* THE STATE CASE.  diagonalize(state) returns one gate on all N qubits whose BACKWARD map is to_map(state); forward runs through its inverse.  For every pure valid state:
+   the inverse exists; forward sends the rows of the state to the rows of |0...0>, signs included; backward sends the rows of |0...0> back to the rows of the state *)
+Theorem C18_state_circuit_inverse_exists : forall n t, tableau_ok n t -> exists mi, inverse (to_map t) = Some mi.
+Proof. exact diag_state_inverse_some. Qed.
+Print Assumptions C18_state_circuit_inverse_exists.
+Theorem C18_state_circuit_forward_gives_zero_state : forall n t mi, tableau_ok n t -> rk t = 0%nat ->
+  inverse (to_map t) = Some mi ->
+  pauli_transform mi (rows t) = rows (zero_state n).
+Proof. exact diag_state_forward_to_zero. Qed.
+Print Assumptions C18_state_circuit_forward_gives_zero_state.
+Theorem C18_state_circuit_backward_reencodes : forall n t, tableau_ok n t -> rk t = 0%nat ->
+  pauli_transform (to_map t) (rows (zero_state n)) = rows t.
+Proof. exact diag_state_backward_reencodes. Qed.
+Print Assumptions C18_state_circuit_backward_reencodes.
+Theorem C18_state_circuit_roundtrip : forall n t, tableau_ok n t -> rk t = 0%nat ->
+  exists mi, inverse (to_map t) = Some mi /\
+  {| rows := pauli_transform mi (rows t); rk := rk t |} = zero_state n /\
+  {| rows := pauli_transform (to_map t) (rows (zero_state n)); rk := 0 |} = t.
+Proof. exact diag_state_roundtrip_ex. Qed.
+Print Assumptions C18_state_circuit_roundtrip.
